@@ -72,8 +72,8 @@ impl Tmpl {
         match self {
             Tmpl::RsReal | Tmpl::RsPerm => 1,
             Tmpl::De | Tmpl::Iwo => 6,
-            Tmpl::GaReal => 5,
-            Tmpl::GaGeneric | Tmpl::EsGeneric | Tmpl::GaBinary | Tmpl::Pso | Tmpl::Fa | Tmpl::Bh | Tmpl::Cro | Tmpl::AntSystem | Tmpl::Es | Tmpl::LsReal | Tmpl::LsPerm => 4,
+            Tmpl::GaReal | Tmpl::GaGeneric | Tmpl::EsGeneric => 5,
+            Tmpl::GaBinary | Tmpl::Pso | Tmpl::Fa | Tmpl::Bh | Tmpl::Cro | Tmpl::AntSystem | Tmpl::Es | Tmpl::LsReal | Tmpl::LsPerm => 4,
             _ => 3,
         }
     }
@@ -205,12 +205,14 @@ pub fn dispatch<V: TemplateVisitor>(case: &Case, v: &mut V, on_ctor_error: &mut 
             let p = real_instance(inst);
             // (population, selection, crossover, pm, mutation, constraints, archive, replacement): combinations in which
             // every operator gets an input it documents as valid in every generation
-            let k = pset % 4;
-            let population_size = [6u32, 4, 7, 5][k];
+            let k = pset % 5;
+            let population_size = [6u32, 4, 7, 5, 4][k];
             let selection = match k {
                 0 => selection::FullyRandom::new(population_size),
                 1 => selection::LinearRank::new(population_size),
                 2 => selection::RandomWithoutRepetition::new(5),
+                // twice as many parents as individuals (so the same individual is often paired with itself), one child per pair
+                4 => selection::Tournament::new(2 * population_size, 2),
                 _ => selection::Tournament::new(population_size, 3),
             };
             let crossover = match k {
@@ -219,9 +221,10 @@ pub fn dispatch<V: TemplateVisitor>(case: &Case, v: &mut V, on_ctor_error: &mut 
                 1 if p.domains.len() >= 2 => recombination::NPointCrossover::new(1, 1.0, false),
                 1 => recombination::UniformCrossover::new(1.0, false),
                 2 => recombination::ArithmeticCrossover::new_insert_both(0.5),
+                4 => recombination::ArithmeticCrossover::new_insert_single(1.0),
                 _ => recombination::UniformCrossover::new_insert_both(0.0),
             };
-            let pm = [1.0, 0.5, 0.0, 1.0][k];
+            let pm = [1.0, 0.5, 0.0, 1.0, 0.0][k];
             let mutation = match k {
                 1 => mutation::UniformMutation::new(0.2, 1.0),
                 _ => mutation::NormalMutation::new_dev(0.1),
@@ -235,6 +238,7 @@ pub fn dispatch<V: TemplateVisitor>(case: &Case, v: &mut V, on_ctor_error: &mut 
             // replacements that do NOT keep all evaluated offspring: whatever is dropped must have been seen by the best-so-far memory
             let replacement = match k {
                 0 | 3 => replacement::RandomReplacement::new(population_size),
+                4 => replacement::Generational::new(population_size),
                 _ => replacement::MuPlusLambda::new(population_size),
             };
             meta.params = format!("generic ga: population_size={population_size} combination#{k} (selection/crossover/mutation/constraints/archive/replacement varied)");
@@ -252,8 +256,9 @@ pub fn dispatch<V: TemplateVisitor>(case: &Case, v: &mut V, on_ctor_error: &mut 
             use mahf::components::{archive, boundary, initialization, mutation, replacement, selection};
             use mahf::identifier::Global;
             let p = real_instance(inst);
-            let k = pset % 4;
-            let (mu, lambda) = [(4u32, 6u32), (3, 3), (5, 2), (2, 7)][k];
+            let k = pset % 5;
+            // (#4: a population that starts at 2 and grows towards a limit of 8 - parents + offspring stay below the limit at first)
+            let (mu, lambda) = [(4u32, 6u32), (3, 3), (5, 2), (2, 7), (8, 3)][k];
             let selection = match k {
                 0 => selection::FullyRandom::new(lambda),
                 1 => selection::RandomWithoutRepetition::new(lambda),
@@ -268,16 +273,16 @@ pub fn dispatch<V: TemplateVisitor>(case: &Case, v: &mut V, on_ctor_error: &mut 
             };
             let archive = if k == 3 { Some(archive::ElitistArchiveUpdate::new(3)) } else { None };
             let replacement = match k {
-                0 | 2 => replacement::RandomReplacement::new(mu),
+                0 | 2 | 4 => replacement::RandomReplacement::new(mu),
                 1 => replacement::Generational::new(mu),
                 _ => replacement::MuPlusLambda::new(mu),
             };
             meta.params = format!("generic es: mu={mu} lambda={lambda} combination#{k} (selection/mutation/constraints/archive/replacement varied)");
             meta.instance = real_instance_desc(inst);
             // (mu, comma-like) Generational keeps min(mu, lambda) offspring
-            meta.pop = if k == 1 { PopBound::AtMost(mu as usize) } else { PopBound::Exactly(mu as usize) };
+            meta.pop = if k == 1 || k == 4 { PopBound::AtMost(mu as usize) } else { PopBound::Exactly(mu as usize) };
             let cfg: mahf::ExecResult<Configuration<Real>> = Ok(Configuration::builder()
-                .do_(initialization::RandomSpread::new(mu))
+                .do_(initialization::RandomSpread::new(if k == 4 { 2 } else { mu }))
                 .evaluate()
                 .update_best_individual()
                 .do_(es::es::<Real, Global>(es::Parameters { selection, mutation, constraints, archive, replacement }, cond::<Real>(n, with_optimum)))
